@@ -2,7 +2,7 @@
    price / denom clause of creation through the factories (Factory.factory_create).
    There is no discount on the open-edition minters: the public buyer is charged the
    public price itself, so "charged <= public" holds without exception there. *)
-From LP Require Import Num Pay Sg1 MinterVending MinterOpen Factory MinterVendingProofs MinterOpenProofs C07Proofs.
+From LP Require Import Num Pay Sg1 MinterVending MinterOpen Factory CreatePrice MinterVendingProofs MinterOpenProofs C07Proofs.
 From Coq Require Import ZArith Lia ZifyN ZifyBool.
 Local Open Scope N_scope.
 
@@ -278,4 +278,19 @@ Theorem o_update_price_denom vr d0 s0 cs e fp wv p s' ms :
 Proof.
   intros Hc Hd H. apply ostep_frame in H. destruct H as (D & _ & P & _). rewrite orun_denom in D.
   split; [ exact P | congruence ].
+Qed.
+
+(* ---------- creation: the price denom is the minimum's denom, whatever the amounts ---------- *)
+(* in particular for a minimum of 0 (a free-mint factory) and for a price of 0 *)
+Theorem creation_denom_is_minimum_denom :
+  (forall fp price d, create_price_ok fp price d = true -> d = fp_min_denom fp) /\
+  (forall m md price d capped, oe_create_price_ok m md price d capped = true -> d = md) /\
+  (forall self p now funds r ms, factory_create FVending self p now funds r = Ok ms -> r_price_denom r = g_min_denom p) /\
+  (forall self p now funds r ms, factory_create FOpen self p now funds r = Ok ms -> r_price_denom r = g_min_denom p).
+Proof.
+  split; [ | split; [ | split ] ].
+  - intros fp price d H. apply create_price_ok_spec in H. tauto.
+  - intros m md price d capped H. unfold oe_create_price_ok in H. lia.
+  - intros self p now funds r ms H. apply factory_create_vending_price in H. tauto.
+  - intros self p now funds r ms H. apply factory_create_open_price in H. tauto.
 Qed.
